@@ -328,6 +328,7 @@ func c14Directed() []Directed {
 func init() {
 	Register(&Engine{
 		ID:       "C14",
+		Anchors:  []string{"match.go:Hosts.Match", "match.go:Hosts.Add", "match.go:Hosts.Delete", "match.go:validOptionalPort", "match.go:Hosts.RegisterInterceptor"},
 		Cases:    func(t string) int { return map[string]int{"quick": 800, "thorough": 60000}[t] },
 		Run:      runC14,
 		Directed: c14Directed,
